@@ -712,6 +712,15 @@ func (s *Subtitles) removeUnusedRegionsAndStyles() {
 		}
 	}
 
+	// Styles inherited by used styles are used as well
+	for _, style := range s.Styles {
+		if usedStyles[style.ID] {
+			for p := style.Style; p != nil && !usedStyles[p.ID]; p = p.Style {
+				usedStyles[p.ID] = true
+			}
+		}
+	}
+
 	// Loop through style
 	for id, style := range s.Styles {
 		if _, ok := usedStyles[style.ID]; !ok {
